@@ -3,7 +3,10 @@ CONSTANTS
   MaxPerm = 6
   Span = 20
   MaxShift = 40
-  Fams = {"pair", "flat", "range", "func", "perm", "num", "bits"}
+  Fams = {"pair", "flat", "range", "func", "perm", "num", "bits", "wide", "xperm", "pow", "powbig"}
+  MaxWide = 3
+  MaxXPerm = 4
+  PowExps = {6, 31, 32, 33, 53, 63, 64, 65, 100, 127, 128, 255, 256, 400, 512, 1000}
   Export = TRUE
 SPECIFICATION Spec
 INVARIANT TypeOK
@@ -16,4 +19,8 @@ INVARIANT FuncLaws
 INVARIANT PermLaws
 INVARIANT NumLaws
 INVARIANT BitLaws
+INVARIANT WideLaws
+INVARIANT XPermLaws
+INVARIANT AgreeLaws
+INVARIANT PowLaws
 CHECK_DEADLOCK FALSE
